@@ -82,6 +82,49 @@ static void litmus (long rounds) {
 	 * strictly between set(flag,1) and the next plain write could be judged; the reader cannot know, hence only the
 	 * positive observations are logged */
 }
+/* store-buffering litmus: T1: set(x,1); r1 = get(y)   T2: set(y,1); r2 = get(x).  The two threads sit on different cores (when the
+ * process may use more than one), rounds are separated by a spin barrier built from compiler atomics, every round has its own pair
+ * of zero-initialised words (different cache lines), and nothing is logged inside a round.  One event per observed outcome and API. */
+#include <sched.h>
+#define SB_ROUNDS 40000
+typedef struct { volatile pint x; char pad1[60]; volatile pint y; char pad2[60]; volatile ppointer px; char pad3[56]; volatile ppointer py; char pad4[56]; } SbCell;
+static SbCell *sb_cell; static volatile int sb_round[2]; static int sb_api; static unsigned char *sb_res[2];
+static void sb_pin (int which) {
+	cpu_set_t all, one; int c, n = 0;
+	if (sched_getaffinity (0, sizeof all, &all) != 0) return;
+	for (c = 0; c < CPU_SETSIZE; c++) if (CPU_ISSET (c, &all)) { if (n == which) { CPU_ZERO (&one); CPU_SET (c, &one); pthread_setaffinity_np (pthread_self (), sizeof one, &one); return; } n++; }
+}
+static void *sb_thread (void *arg) {
+	int me = (int) (long) arg, other = 1 - me, i;
+	sb_pin (me);
+	for (i = 0; i < SB_ROUNDS; i++) {
+		SbCell *c = &sb_cell[i]; int spins = 0; long r;
+		__atomic_store_n (&sb_round[me], i + 1, __ATOMIC_SEQ_CST);
+		while (__atomic_load_n (&sb_round[other], __ATOMIC_SEQ_CST) < i + 1) if (++spins > 50000) { sched_yield (); spins = 0; }
+		if (sb_api == 0) {
+			if (me == 0) { p_atomic_int_set (&c->x, 1); r = p_atomic_int_get (&c->y); }
+			else { p_atomic_int_set (&c->y, 1); r = p_atomic_int_get (&c->x); }
+		} else {
+			if (me == 0) { p_atomic_pointer_set (&c->px, (ppointer) 1); r = (long) p_atomic_pointer_get (&c->py); }
+			else { p_atomic_pointer_set (&c->py, (ppointer) 1); r = (long) p_atomic_pointer_get (&c->px); }
+		}
+		sb_res[me][i] = (unsigned char) (r ? 1 : 0);
+	}
+	return NULL;
+}
+static void sb_litmus (void) {
+	pthread_t th[2]; int i; long cnt[2][2];
+	sb_cell = calloc (SB_ROUNDS, sizeof (SbCell)); sb_res[0] = calloc (SB_ROUNDS, 1); sb_res[1] = calloc (SB_ROUNDS, 1);
+	if (!sb_cell || !sb_res[0] || !sb_res[1]) return;
+	for (sb_api = 0; sb_api <= 1; sb_api++) {
+		memset ((void *) sb_cell, 0, SB_ROUNDS * sizeof (SbCell)); sb_round[0] = sb_round[1] = 0; memset (cnt, 0, sizeof cnt);
+		for (i = 0; i < 2; i++) pthread_create (&th[i], NULL, sb_thread, (void *) (long) i);
+		for (i = 0; i < 2; i++) pthread_join (th[i], NULL);
+		for (i = 0; i < SB_ROUNDS; i++) cnt[sb_res[0][i]][sb_res[1][i]]++;
+		for (i = 0; i < 4; i++) if (cnt[i >> 1][i & 1]) VTM ("\"e\":\"sb\",\"api\":\"%s\",\"r1\":%d,\"r2\":%d,\"count\":%ld", sb_api ? "pointer" : "int", i >> 1, i & 1, cnt[i >> 1][i & 1]);
+	}
+	free (sb_cell); free (sb_res[0]); free (sb_res[1]);
+}
 int main (int argc, char **argv) {
 	if (argc < 4) return 2;
 	p_libsys_init ();
@@ -110,6 +153,7 @@ int main (int argc, char **argv) {
 		epoch (0);
 		for (i = 1; i <= nth; i++) pthread_join (th[i], NULL);
 		litmus (200000);
+		sb_litmus ();
 		vtm_close ();
 	}
 	p_libsys_shutdown ();
